@@ -346,19 +346,21 @@ class _ReplayProtocol(_Protocol):
 
 
 class _ReplayImpl:
-    def __init__(self, fail: bool, msg: str, bad_result: bool) -> None:
+    def __init__(self, fail: bool, msg: str, bad_result: object) -> None:
         self.fail, self.msg, self.bad_result = fail, msg, bad_result
 
     def boom(self, n: int) -> int:
         if self.fail:
             raise ValueError(self.msg) if self.msg != "" else ValueError()
+        if self.bad_result == "NONE":
+            return None  # type: ignore[return-value]
         return "BAD" if self.bad_result else n  # type: ignore[return-value]
 
     def gen(self, n: int) -> Stream[_GenState]:
         return Stream(output_schema=_REPLAY_SCHEMA, state=_GenState(msg=self.msg, fail=self.fail))
 
 
-def _real_run(transport: str, debug: bool, kind: str, fail: bool, msg: str, cancel: bool = False, bad_result: bool = False) -> tuple[list, str]:
+def _real_run(transport: str, debug: bool, kind: str, fail: bool, msg: str, cancel: bool = False, bad_result: object = False) -> tuple[list, str]:
     """Un-stubbed public API: a real RpcServer served over an in-memory pipe or the real HTTP app (falcon test client),
     real logging with the real VgiAccessLogFormatter.  Returns (parsed vgi_rpc.access records of the call, what the client saw)."""
     import warnings
@@ -723,10 +725,8 @@ class _FakeServer:
 
 def _replay_unary_shell(args: dict) -> str | None:
     outcome, msg = args.get("outcome", 0), args.get("msg", "")
-    if outcome == 2:
-        return None  # `None` for a non-optional result is refused by the client proxy's own checks first; no public replay
-    recs, seen = _real_run("pipe", False, "unary", outcome == 1, msg, False, bad_result=outcome == 3)
-    note = " returning a value that does not fit the declared result type" if outcome == 3 else ""
+    recs, seen = _real_run("pipe", False, "unary", outcome == 1, msg, False, bad_result="NONE" if outcome == 2 else outcome == 3)
+    note = " returning a value that does not fit the declared result type" if outcome == 3 else (" returning None for a non-optional result" if outcome == 2 else "")
     return _judge_real("pipe", "unary", outcome == 1, msg, False, recs, seen, note)
 
 
